@@ -23,6 +23,9 @@ def run(tier):
     fam_consts.audit(run, tier)          # the numeric constants this property rests on, from the source text (MC_Consts)
     sc = vlib.scratch()
     run.mc("MC_Tower", timeout=600)
+    # Tier A: Fq2::square_root (complex method with its alpha = -1 case) and Fq2::legendre (through the norm) as coded, every element of toy Fq2
+    for cfg in (["fq2_19", "fq2_43"] if tier == "quick" else ["fq2_19", "fq2_43", "fq2_103"]):
+        run.mc("FieldAlg", "MC_FieldAlg_%s.cfg" % cfg, timeout=900)
     cases = run.generate("Gen_Tower", "tower")
     traces = []
     plan = [("asm", 1, 0), ("p32", 4, vlib.seed() % 4)] if tier == "quick" else [("asm", 1, 0), ("p64", 1, 0), ("p32", 1, 0)]
